@@ -87,15 +87,46 @@ def import_literals(F, R, tag="C01-d"):
                  expr_text(v), "under a dynamic descriptor" if dyn_ctx else "for a static form", "static" if dyn_ctx else "dynamic (skipped with skip_dynamic_deps, loaded after all static loads)"), where(l))
 
 
+def type_writes_gated(F, R, tag="C01-e"):
+    """type resolutions are recorded only when the graph kind includes types (a
+    code-only build records none, which is what prune_types reproduces)"""
+    inc = lambda x: x.kind == "cond" and x.pol and (x.node.get("fn") or "").endswith("GraphKind::include_types")
+    TYPE_KINDS = ("graph::ImportKind::TsType", "graph::ImportKind::TsModuleAugmentation")
+    n_w = 0
+    for fn in ("graph::parse_js_module_from_module_info", "graph::fill_module_dependencies"):
+        b = F.body(fn)
+        # type-only import kinds are only produced when types are included
+        for n in b["_nodes"]:
+            if ctor_of(n) in TYPE_KINDS and n.get("k") == "Path" and not any(a.get("k") in ("Pat",) for a in k_ancestors(n)) and n.get("_role") != "pat":
+                par = n.get("_p") or {}
+                if par.get("k") == "Binary" and par["op"] in ("==", "!="):
+                    continue  # a comparison, not a construction
+                if "matches" in (n.get("mac") or []):
+                    continue
+                R.ob(tag, "a %s import is only produced when types are included" % ctor_of(n).split("::")[-1], any(inc(x) for x in guards_at(F, n)),
+                     "%s is produced without `graph_kind.include_types()`: a code-only graph would record type-only imports" % ctor_of(n).split("::")[-1], where(n))
+        for n in b["_nodes"]:
+            if n["k"] == "Assign" and field_of(n["l"]) in ("maybe_type", "maybe_types_dependency", "maybe_deno_types_specifier"):
+                r_ = peel(n["r"])
+                if ctor_of(r_) in ("std::option::Option::None", "graph::Resolution::None"):
+                    continue
+                n_w += 1
+                g = guards_at(F, n)
+                ok = any(inc(x) for x in g) or any(x.kind == "pat" and x.pol and any(k_ in pat_text(x.pat) for k_ in TYPE_KINDS) and not any(k_ in pat_text(x.pat) for k_ in ("ImportKind::Es", "ImportKind::Require")) for x in g)
+                R.ob(tag, "`%s` in %s is written only when types are included" % (field_of(n["l"]), fn.split("::")[-1]), ok,
+                     "`%s = ..` is not under `graph_kind.include_types()` (nor specific to a type-only import kind): a code-only build would record a type resolution and follow it, so it differs from the pruned full build and loads modules only types need" % expr_text(n["l"])[:40], where(n))
+    R.floor(tag + " writes of type resolutions", n_w, 12)
+
+
 def descriptor_loops_complete(F, R, tag="C01-c"):
     """every declared reference is processed: the loops that turn ModuleInfo
     lists into dependencies have no early `break` / `return`"""
     n_l = 0
-    for fn in ("graph::parse_js_module_from_module_info", "graph::fill_module_dependencies"):
+    for fn in ("graph::parse_js_module_from_module_info", "graph::fill_module_dependencies", "graph::Builder::visit_module_dependencies"):
         b = F.body(fn)
         for lp in [n for n in b["_nodes"] if n["k"] == "For"]:
             it = lp["iter"]
-            if not (any(tyc(F, y, "analysis::") for y in walk(it)) or any(x.get("k") == "Field" and x["field"] in ("ts_references", "jsdoc_imports", "dependencies") for x in walk(it))):
+            if not (any(tyc(F, y, "analysis::") for y in walk(it)) or any(x.get("k") == "Field" and x["field"] in ("ts_references", "jsdoc_imports", "dependencies") for x in walk(it)) or tyc(F, it, "graph::Dependency")):
                 continue
             n_l += 1
             early = []
@@ -109,7 +140,7 @@ def descriptor_loops_complete(F, R, tag="C01-c"):
                     early.append(x)
             R.ob(tag, "every entry of `%s` is processed" % expr_text(it)[:40], not early,
                  "the loop over `%s` in %s can stop early (`%s`): references declared after that point would not be recorded as dependencies" % (expr_text(it)[:40], fn.split("::")[-1], expr_text(early[0])[:20] if early else ""), where(early[0]) if early else "")
-    R.floor(tag + " descriptor loops", n_l, 3)
+    R.floor(tag + " descriptor loops", n_l, 4)
 
 
 def run(F, R, tier):
@@ -334,10 +365,18 @@ def run(F, R, tier):
         R.ob("C01-f", "an unknown media type is assumed to be JavaScript only for roots", ok,
              "media_type = JavaScript under %s: non-root files of unknown type would become modules (pulling their imports into the graph) instead of UnsupportedMediaType errors" % [x.text()[:50] for x in g if x.kind == "cond"], where(a_))
 
+    # ---------------- C01-v ------------------------------------------------
+    # what the source text declares reaches the graph only through the dependency
+    # collector: every specifier-carrying syntax has a handler and handlers recurse
+    # (shared with C08-V)
+    from . import c08
+    c08.visitor_coverage(F, R, tag="C01-v", pid="C01")
+
     # ---------------- C01-d ------------------------------------------------
     is_dynamic_writes(F, R)
     import_literals(F, R)
     descriptor_loops_complete(F, R)
+    type_writes_gated(F, R)
     aw = [n for n in F.all_nodes() if not n["_top"].get("derived") and n["k"] in ("Assign", "AssignOp") and peel(n["l"]).get("k") == "Field" and peel(n["l"])["field"] == "is_asset" and peel(n["l"]).get("adt") == "graph::PendingDynamicBranch"]
     R.floor("C01-d writes to PendingDynamicBranch::is_asset", len(aw), 1)
     for w in aw:
